@@ -89,6 +89,7 @@ def main():
         return run.finish(dict(evaluations=0), [], [])
     wd = scratch_dir()
     run.check_proofs(deps=['theories/Proofs/DiagProofs.vo'])
+    NCORPUS = run_corpus(run, PID, src)          # minimised past failures first
     rc, o, e = sh([os.path.join(VERIF, 'ocaml/build.sh')], timeout=900)
     chibi = os.path.join(src, 'chibicc')
     evals = 0; nontriv = 0; dist = {}; samples = []
